@@ -508,11 +508,46 @@ def run(ctx):
         account(hl)
         totals["sessions"] += 1; totals["clean_sessions"] += int(clean)
         for f in ("steps", "solves", "fresh_compared", "bitexact"): totals[f] += info[f]
+        totals["size_steps"] = totals.get("size_steps", 0) + info.get("size_steps", 0)
         lb = "%d-%d" % (len(hl) // 10 * 10, len(hl) // 10 * 10 + 9)
         hist["lengths"][lb] = hist["lengths"].get(lb, 0) + 1
         if key not in seen and len([l for l in hl if l.startswith("solve")]) >= 1: seen.add(key)
         if len(samples) < 4: samples.append([l[:60] for l in hl[:8]])
         report(ctx, h, hl, v, "random-%s-%d" % ("clean" if clean else "full", k))
+
+    # 2b. growing / shrinking degrees with multiple roots and clusters on one context (standard algorithm)
+    n_grow = ctx.pick(10, 120)
+    for k in range(n_grow):
+        goal = "a" if k % 5 == 4 else "i"
+        hl = gen_grow_session(rng, goal, ctx.pick(18, 30))
+        v, info = evaluate(ctx, h, hl)
+        account(hl)
+        totals["sessions"] += 1; totals["grow_sessions"] = totals.get("grow_sessions", 0) + 1
+        for f in ("steps", "solves", "fresh_compared", "bitexact"): totals[f] += info[f]
+        totals["size_steps"] = totals.get("size_steps", 0) + info.get("size_steps", 0)
+        seen.add(tuple(hl))
+        if k == 0: samples.append([l[:60] for l in hl[:8]])
+        report(ctx, h, hl, v, "grow-%s-%d" % (goal, k))
+
+    # 2c. thorough tier: the same kind of sessions under valgrind/memcheck on the uninstrumented build
+    #     (sees accesses made inside libgmp and reads past a block, which ASan + the GMP guard do not)
+    vg_runs = 0
+    if not ctx.quick():
+        hp = ctx.compile_harness([HARNESS], "c15_reuse_plain", mode="plain")
+        sessions = [WITNESSES["grow_multiple_roots"], WITNESSES["shrink_then_grow_clusters"], WITNESSES["approximate_then_larger"]]
+        sessions += [gen_grow_session(rng, "a" if k % 3 == 2 else "i", 24) for k in range(9)]
+        for hl in sessions:
+            script = [l for l in hl if l != "leakcheck"]
+            env = dict(os.environ); env["VF_GMP_GUARD"] = "0"
+            rc, out, err = vf.sh(["valgrind", "-q", "--error-exitcode=9", "--leak-check=no", "--undef-value-errors=no", "--num-callers=12", hp],
+                                 input="\n".join(script) + "\n", timeout=1500, env=env)
+            vg_runs += 1
+            if rc == 9 or "Invalid " in err:
+                m = re.search(r"(Invalid (?:read|write|free)[^\n]*)\n((?:==\d+==\s+(?:at|by) [^\n]*\n)+)", err)
+                fr = re.findall(r"(?:at|by) 0x[0-9A-F]+: (\w+) \((?!in /usr)", m.group(2))[:3] if m else []
+                approx = any(l == "goal a" for l in script)
+                sig = "gmp-overflow:stale-precision-after-approximate" if approx else "valgrind:%s:%s" % ((m.group(1).split(" of")[0].replace(" ", "-") if m else "error"), "<".join(fr))
+                ctx.violation(sig, "memcheck: %s in %s" % (m.group(1) if m else "error", "<".join(fr)), {"script": script, "tag": "valgrind"})
 
     # 3. heap growth over 200 repetitions of a fixed cycle
     growth_info = {}
@@ -541,13 +576,22 @@ def run(ctx):
             ctx.violation("growth:%s" % name, "heap grows by %d bytes between cycle 50 and cycle 200 of a fixed solve cycle on one context" % g,
                           {"script": lines[:1 + 12 * 2] + ["free"], "tag": name, "marks": marks[::10]})
 
+    # array sizes observed in the implementation differ from the size expressions of the model: the targeted search
+    # are the grow/shrink sessions above; if none of them produced a concrete violation, report the broken correspondence
+    if SIZE_MISMATCH and not ctx.violations:
+        sm = SIZE_MISMATCH[0]
+        ctx.violation("correspondence:array-size:%s" % ",".join(sm["arrays"]),
+                      "work array(s) %s are not allocated with the size the model of context.c/data.c prescribes after step %d (%s): got %s, model %s"
+                      % (sm["arrays"], sm["step"], sm["script"][-1][:50], sm["got"], sm["model"]), {"script": sm["script"] + ["free"], "tag": "sizes"}, no_input=True)
     p = ctx.proof or {}
     ctx.proof_violation_if_broken(search=None)
     cov = {
         "evaluations": totals["steps"],
         "distinct_nontrivial": len(seen),
         "rule": "distinct random operation sequences (as model scripts) containing at least one solve; evaluations = operations executed on the real library and compared with the extracted model",
-        "sessions": totals["sessions"], "clean_sessions": totals["clean_sessions"],
+        "sessions": totals["sessions"], "clean_sessions": totals["clean_sessions"], "grow_multiple_root_sessions": totals.get("grow_sessions", 0),
+        "steps_with_all_12_array_sizes_equal_to_model": totals.get("size_steps", 0), "array_size_mismatches": len(SIZE_MISMATCH),
+        "valgrind_sessions": vg_runs,
         "solves": totals["solves"], "solves_compared_with_fresh_context": totals["fresh_compared"],
         "solves_bit_identical_to_fresh_context": totals["bitexact"],
         "heap_growth": growth_info,
@@ -557,7 +601,7 @@ def run(ctx):
         "trusted_base": [
             "Coq 8.16.1 kernel (coqc, full .vo build); theorems closed under the global context",
             "extraction: ExtrOcamlBasic + ExtrOcamlNativeString only; ocaml/ctx_driver.ml (hand written I/O)",
-            "harness/c15_reuse.c reads private fields of struct mps_context; gcc ASan/UBSan/LSan runtime",
+            "harness/c15_reuse.c reads private fields of struct mps_context (incl. allocated size of the 12 work arrays via the ASan allocator) and wraps GMP allocations with canaries (libgmp is not instrumented); gcc ASan/UBSan/LSan runtime; valgrind memcheck in the thorough tier",
             "modelled, not verified: the numerical part of a solve is abstracted to 'touches the whole n-based extent of each work array'; bmpc and the thread pools are outside the model",
             "results are compared with a fresh context (disc intersection), not validated against the true roots here (C01/C02 oracle)",
         ],
